@@ -11,7 +11,7 @@ use serde_json::{json, Value};
 use crate::{
     exec::catch_quiet,
     explore::{hash64, par_for, JobCfg, Stats, ViolRec},
-    graphs::{closure, dags, decl_count, decl_decode, edge_orders, family, longest_rank, raw_edges, Family, Spec},
+    graphs::{dags, decl_count, decl_decode, edge_orders, family, longest_rank, raw_edges, Family, Spec},
     node::{conflict, Node},
 };
 
@@ -95,32 +95,66 @@ fn acyclic(n: usize, edges: &[(usize, usize)]) -> bool {
     seen == n
 }
 
-/// The reference set of data edges: TR(U + R) \ U, where R orders every
+/// The reference set of data edges: TR(U + R) \\ U, where R orders every
 /// conflicting pair the user left unordered by (logic rank, insertion index).
 fn reference_data_edges(spec: &Spec) -> (Vec<(usize, usize)>, Vec<usize>) {
+    if spec.n <= 64 {
+        reference_data_edges_m::<u64>(spec)
+    } else {
+        reference_data_edges_m::<crate::mask::BigMask>(spec)
+    }
+}
+
+fn reference_data_edges_m<M: crate::mask::Mask>(spec: &Spec) -> (Vec<(usize, usize)>, Vec<usize>) {
+    use crate::mask::{closure_m, transpose_m};
     let n = spec.n;
     let ue = spec.user_edges();
     let rank = longest_rank(n, &ue);
-    let reach_u = closure(n, &ue);
+    let reach_u: Vec<M> = closure_m(n, &ue);
     let key = |i: usize| (rank[i], i);
     let mut h = ue.clone();
-    for a in 0..n {
-        for c in 0..n {
-            if a != c && key(a) < key(c) && conflict(spec.acc(a), spec.acc(c)) && reach_u[a] >> c & 1 == 0 && reach_u[c] >> a & 1 == 0 {
-                h.push((a, c));
+    if spec.has_decl() {
+        for a in 0..n {
+            if spec.acc(a).iter().all(|x| *x == 0) {
+                continue;
+            }
+            for c in 0..n {
+                if a != c && key(a) < key(c) && conflict(spec.acc(a), spec.acc(c)) && !reach_u[a].get(c) && !reach_u[c].get(a) {
+                    h.push((a, c));
+                }
             }
         }
     }
-    let reach_h = closure(n, &h);
+    let reach_h: Vec<M> = closure_m(n, &h);
+    let anc_h: Vec<M> = transpose_m(n, &reach_h);
     let mut d = vec![];
     for &(a, c) in &h[ue.len()..] {
-        let implied = (0..n).any(|k| k != a && k != c && reach_h[a] >> k & 1 == 1 && reach_h[k] >> c & 1 == 1);
-        if !implied {
+        // implied iff some k lies strictly between a and c
+        if !reach_h[a].intersects(&anc_h[c]) {
             d.push((a, c));
         }
     }
     d.sort_unstable();
     (d, rank)
+}
+
+/// Pairs (a, b), a < b, with conflicting declarations that are NOT joined by a directed path
+/// over `edges`.
+fn unjoined_conflicts<M: crate::mask::Mask>(spec: &Spec, edges: &[(usize, usize)]) -> Vec<(usize, usize)> {
+    let n = spec.n;
+    let reach: Vec<M> = crate::mask::closure_m(n, edges);
+    let mut out = vec![];
+    for a in 0..n {
+        if spec.acc(a).iter().all(|x| *x == 0) {
+            continue;
+        }
+        for b in a + 1..n {
+            if conflict(spec.acc(a), spec.acc(b)) && !reach[a].get(b) && !reach[b].get(a) {
+                out.push((a, b));
+            }
+        }
+    }
+    out
 }
 
 /// C11 + C12 (structure part) + C06 (static part) + C13 on one input.
@@ -183,13 +217,10 @@ pub fn check_built(spec: &Spec, props: &[u8], st: &mut Stats) {
         if !acyclic(n, &all) {
             bviol(st, 11, spec, what, format!("built graph has a cycle: {raw:?}"));
         } else {
-            let reach = closure(n, &all);
-            for a in 0..n {
-                for b in a + 1..n {
-                    if conflict(spec.acc(a), spec.acc(b)) && reach[a] >> b & 1 == 0 && reach[b] >> a & 1 == 0 {
-                        bviol(st, 11, spec, what, format!("conflicting functions {a} and {b} are not joined by a directed path; built edges {raw:?}"));
-                    }
-                }
+            let unjoined = if n <= 64 { unjoined_conflicts::<u64>(spec, &all) } else { unjoined_conflicts::<crate::mask::BigMask>(spec, &all) };
+            for (a, b) in unjoined.into_iter().take(3) {
+                let shown: Vec<_> = raw.iter().take(40).collect();
+                bviol(st, 11, spec, what, format!("conflicting functions {a} and {b} are not joined by a directed path; built edges {shown:?}{}", if raw.len() > 40 { " ..." } else { "" }));
             }
         }
     }
@@ -778,6 +809,97 @@ fn declared_shapes(k: usize) -> Vec<(String, usize, Vec<(usize, usize)>)> {
     v
 }
 
+/// Many data types (more than 64, 128): sizes around the word-size thresholds.
+pub fn many_type_specs() -> Vec<(String, Spec)> {
+    let mut v = vec![];
+    for k in [31usize, 33, 63, 64, 65, 66, 70, 127, 129, 130] {
+        // 0: function i writes type i only (no conflicts at all)
+        // 1: function i writes type i and reads type i+1 (neighbours conflict)
+        // 2: as 0 plus one last function that reads every type
+        for pat in 0..3 {
+            let n = if pat == 2 { k + 1 } else { k };
+            let mut s = Spec::plain(n, &[]);
+            s.decl = (0..n)
+                .map(|i| {
+                    let mut acc = vec![0u8; k];
+                    if i < k {
+                        acc[i] = 2;
+                        if pat == 1 {
+                            acc[(i + 1) % k] = 1;
+                        }
+                    } else {
+                        acc.iter_mut().for_each(|a| *a = 1);
+                    }
+                    acc
+                })
+                .collect();
+            v.push((format!("{k} data types, pattern {pat}"), s));
+        }
+    }
+    v
+}
+
+/// Two conflicting functions separated (in insertion / rank order) by k unrelated ones.
+pub fn sparse_conflict_specs() -> Vec<(String, Spec)> {
+    let mut v = vec![];
+    for k in [1usize, 6, 7, 8, 15, 16, 17, 31, 32, 33, 63, 64, 65, 127, 128, 129, 253, 254, 255, 256, 257, 300] {
+        for variant in 0..3 {
+            // variant 0: E, fillers.., P, X with P -> X       (E and X write the same type)
+            // variant 1: P, X, E, fillers..  with P -> X       (same, other insertion order)
+            // variant 2: E, fillers.., X                        (no edge at all)
+            let n = if variant == 2 { k + 2 } else { k + 3 };
+            let (e, x, edges): (usize, usize, Vec<(usize, usize)>) = match variant {
+                0 => (0, k + 2, vec![(k + 1, k + 2)]),
+                1 => (2, 1, vec![(0, 1)]),
+                _ => (0, k + 1, vec![]),
+            };
+            let mut s = Spec::plain(n, &edges);
+            s.decl = (0..n).map(|i| if i == e || i == x { vec![2] } else { vec![0] }).collect();
+            v.push((format!("two writers {k} unrelated functions apart, variant {variant}"), s));
+        }
+    }
+    v
+}
+
+/// Irregular graphs from an arithmetic rule: edge i -> j (i < j) iff (a*i + j) mod m < t, for
+/// every (m, a, t) of a grid, under three labellings.
+pub fn arithmetic_specs(ns: &[usize], with_decl: bool) -> Vec<(String, Spec)> {
+    let mut v = vec![];
+    for &n in ns {
+        for m in 2..=6usize {
+            for a in 1..m {
+                for t in 1..m {
+                    let base: Vec<(usize, usize)> = (0..n).flat_map(|i| (i + 1..n).map(move |j| (i, j))).filter(|&(i, j)| (a * i + j) % m < t).collect();
+                    for lab in 0..3 {
+                        let perm: Vec<usize> = match lab {
+                            0 => (0..n).collect(),
+                            1 => (0..n).rev().collect(),
+                            _ => {
+                                let p: Vec<usize> = (0..n).map(|i| (i * 7 + 3) % n).collect();
+                                let mut seen = vec![false; n];
+                                if p.iter().any(|&x| std::mem::replace(&mut seen[x], true)) {
+                                    continue;
+                                }
+                                p
+                            }
+                        };
+                        let e: Vec<(usize, usize)> = base.iter().map(|&(i, j)| (perm[i], perm[j])).collect();
+                        let pats: &[usize] = if with_decl { &[2, 5, 9] } else { &[9] };
+                        for &pat in pats {
+                            let mut s = Spec::plain(n, &e);
+                            if pat != 9 {
+                                s.decl = (0..n).map(|i| decl_pattern(pat, i)).collect();
+                            }
+                            v.push((format!("arithmetic n={n} m={m} a={a} t={t} labelling {lab} pattern {pat}"), s));
+                        }
+                    }
+                }
+            }
+        }
+    }
+    v
+}
+
 pub fn run_declared_families(tier: &str, deadline: Instant, f: &(dyn Fn(&Spec, &mut Stats) + Sync), total: &mut Stats, log: &mut Vec<Value>) {
     let ks: Vec<usize> = if tier == "thorough" { (2..=60).collect() } else { vec![4, 7, 12, 19, 20, 21, 22, 24, 29, 32, 40, 48] };
     let mut specs = vec![];
@@ -790,6 +912,11 @@ pub fn run_declared_families(tier: &str, deadline: Instant, f: &(dyn Fn(&Spec, &
             }
         }
     }
+    let n_decl = specs.len();
+    specs.extend(many_type_specs());
+    specs.extend(sparse_conflict_specs());
+    let arith_ns: Vec<usize> = if tier == "thorough" { vec![7, 8, 9, 10, 11, 12, 14, 16, 20, 24, 32, 40, 48] } else { vec![8, 10, 12, 16, 24, 40] };
+    specs.extend(arithmetic_specs(&arith_ns, true));
     let t0 = Instant::now();
     let mut st = Stats::default();
     let specs_ref = &specs;
@@ -811,9 +938,50 @@ pub fn run_declared_families(tier: &str, deadline: Instant, f: &(dyn Fn(&Spec, &
         |l| st.merge(l),
     );
     st.capped |= capped;
-    let label = format!("declared families (antichain, zigzag, descending chain, stars, fans, trees, layered; 6 access patterns over 2 types) for k in {ks:?}, n <= 64");
+    let label = format!(
+        "enumerated families: {n_decl} declared shapes (antichain, zigzag, descending chain, stars, fans, trees, layered; 6 access patterns; k in {ks:?}); 31..130 data types in 3 patterns; two writers 1..300 unrelated functions apart; arithmetic irregular DAGs n in {arith_ns:?} x (m,a,t) grid x 3 labellings x 3 access patterns"
+    );
     log.push(json!({"space": label, "inputs": st.execs, "completed": !st.capped, "wall_s": t0.elapsed().as_secs_f64()}));
-    eprintln!("  [declared families, {} inputs] viol={} {}{:.1}s", specs.len(), st.viol_total, if st.capped { "CAPPED " } else { "" }, t0.elapsed().as_secs_f64());
+    eprintln!("  [enumerated families, {} inputs] viol={} {}{:.1}s", specs.len(), st.viol_total, if st.capped { "CAPPED " } else { "" }, t0.elapsed().as_secs_f64());
+    total.merge(st);
+}
+
+/// Every (topologically labelled DAG on n nodes, declaration over one type): all isomorphism
+/// classes of shapes with every declaration.
+pub fn run_topo_decl_space(n: usize, alphabet: &[u8], deadline: Instant, f: &(dyn Fn(&Spec, &mut Stats) + Sync), total: &mut Stats, log: &mut Vec<Value>) {
+    let shapes = crate::graphs::topo_dag_specs(n);
+    let nd = alphabet.len().pow(n as u32);
+    let t0 = Instant::now();
+    let mut st = Stats::default();
+    let shapes_ref = &shapes;
+    let capped = par_for(
+        shapes.len(),
+        deadline,
+        Stats::default,
+        |i, local: &mut Stats| {
+            let mut s = shapes_ref[i].clone();
+            for d in 0..nd {
+                let mut code = d;
+                s.decl = (0..n)
+                    .map(|_| {
+                        let a = alphabet[code % alphabet.len()];
+                        code /= alphabet.len();
+                        vec![a]
+                    })
+                    .collect();
+                f(&s, local);
+            }
+            if local.samples.len() < 1 && i % 4099 == 7 {
+                local.samples.push(json!({"input": s.short()}));
+            }
+            local.fold_hashes();
+        },
+        |l| st.merge(l),
+    );
+    st.capped |= capped;
+    let label = format!("all {} topologically labelled DAGs on {n} nodes (every isomorphism class) x all {nd} declarations over one type with access in {alphabet:?} (0 none, 1 read, 2 write)", shapes.len());
+    log.push(json!({"space": label, "inputs": st.execs, "completed": !st.capped, "wall_s": t0.elapsed().as_secs_f64()}));
+    eprintln!("  [{label}] inputs={} viol={} {}{:.1}s", st.execs, st.viol_total, if st.capped { "CAPPED " } else { "" }, t0.elapsed().as_secs_f64());
     total.merge(st);
 }
 
@@ -1051,6 +1219,11 @@ pub fn run_build_props(prop: u8, tier: &str, deadline: Instant, total: &mut Stat
                 run_build_space(sp, deadline, &f, total, log);
             }
             run_declared_families(tier, deadline, &f, total, log);
+            if prop != 6 {
+                let f6 = move |s: &Spec, st: &mut Stats| check_built(s, &[prop], st);
+                let alphabet: &[u8] = if thorough { &[0, 1, 2] } else { &[0, 2] };
+                run_topo_decl_space(6, alphabet, deadline, &f6, total, log);
+            }
         }
         13 => {
             let f = |s: &Spec, st: &mut Stats| check_built(s, &[13], st);
